@@ -10,6 +10,41 @@ import Kvass.Proofs.LoopPos
 namespace Kvass.Loop
 open Kvass Kvass.Coord Kvass.Spec
 
+/-- the explorer has no successful probe of `h`, or its estimate exceeds a limit: the coordinator
+    will not assign `h` while nobody holds it -/
+def Unplaceable (env : Env) (w : World) (h : Hash) : Prop :=
+  match w.explore.get h with
+  | none => True
+  | some e => Gen.assignSkip e = true ∨ Gen.tooBig env.opt e = true
+
+theorem unplaceable_global (env : Env) (w : World) (h : Hash) (hn : ¬ Held w h) (hu : Unplaceable env w h) :
+    Gen.assignSkip (globalOf (infos0 (inputOf env w [] false)) w.explore h) = true ∨
+    Gen.tooBig env.opt (globalOf (infos0 (inputOf env w [] false)) w.explore h) = true := by
+  unfold Unplaceable at hu
+  cases he : w.explore.get h with
+  | some e =>
+    rw [he] at hu
+    rw [unheld_global env w h e hn he]
+    exact hu
+  | none =>
+    left
+    rcases globalOf_cases (infos0 (inputOf env w [] false)) w.explore h with ⟨s, hs, hg⟩ | ⟨he', _⟩ | ⟨_, h0⟩
+    · exfalso
+      obtain ⟨i, hi⟩ := List.getElem?_of_mem hs
+      obtain ⟨sh, hrun, rfl⟩ := infos0_running env w i s hi
+      exact hn ⟨i, sh, hrun, (AL.has_iff _ _).mpr ⟨_, hg⟩⟩
+    · rw [he] at he'; cases he'
+    · rw [h0]; simp [Gen.assignSkip]
+
+/-- relief and scale-down off, size within [min, max], every discovered target held or unplaceable,
+    every held target discovered — any number of holders per target -/
+structure RegimeN (env : Env) (w : World) : Prop extends WInv env w where
+  noRelief : env.opt.disableAlleviate = true
+  noDown : env.opt.idleOn = false
+  minOk : env.opt.minShard ≤ (w.replicas : Int)
+  activeOnly : ∀ sh ∈ w.running, ∀ h v, (statusOf sh).get h = some v → h ∈ w.active
+  allHeld : ∀ h ∈ w.active, Held w h ∨ Unplaceable env w h
+
 /-- relief and scale-down off, size within [min, max], every discovered target held, every held
     target discovered, every target on at most two running sidecars — never twice in transfer -/
 structure Regime (env : Env) (w : World) : Prop extends WInv env w where
@@ -23,30 +58,52 @@ structure Regime (env : Env) (w : World) : Prop extends WInv env w where
     w.running[k]? = some shk → (statusOf shi).has h = true → (statusOf shj).has h = true → (statusOf shk).has h = true →
     i = j ∨ i = k ∨ j = k
   activeOnly : ∀ sh ∈ w.running, ∀ h v, (statusOf sh).get h = some v → h ∈ w.active
-  allHeld : ∀ h ∈ w.active, Held w h
+  allHeld : ∀ h ∈ w.active, Held w h ∨ Unplaceable env w h
 
-theorem regime_calm (swr : Swr) (env : Env) (w : World) (r : Regime env w) : Calm swr (inputOf env w [] false) := by
+theorem Regime.toN {env : Env} {w : World} (r : Regime env w) : RegimeN env w :=
+  ⟨r.toWInv, r.noRelief, r.noDown, r.minOk, r.activeOnly, r.allHeld⟩
+
+theorem regime_calm (swr : Swr) (env : Env) (w : World) (r : RegimeN env w) : Calm swr (inputOf env w [] false) := by
   have hrl := running_length w r.rep
   have hpl : (inputOf env w [] false).probes.length = w.replicas := by rw [inputOf_probes_length, hrl]
   refine ⟨Or.inl r.noRelief, ?_, by rw [hpl]; exact r.minOk, by rw [hpl]; exact r.max, r.noDown⟩
   intro h ha
-  left
-  obtain ⟨i, sh, hrun, hhas⟩ := r.allHeld h ha
-  obtain ⟨y, sy, hy, hgy⟩ := (provInv_start (inputOf env w [] false)).kept i (probeOf env sh {}) h
-    (inputOf_probe env w i sh hrun) (by rw [reported_probeOf]; exact hhas) ha
-  cases hg : sy.scraping.get h with
-  | none => exact absurd hg hgy
-  | some v => exact mem_scrapingSetOf hy hg
+  by_cases hh : Held w h
+  · left
+    obtain ⟨i, sh, hrun, hhas⟩ := hh
+    obtain ⟨y, sy, hy, hgy⟩ := (provInv_start (inputOf env w [] false)).kept i (probeOf env sh {}) h
+      (inputOf_probe env w i sh hrun) (by rw [reported_probeOf]; exact hhas) ha
+    cases hg : sy.scraping.get h with
+    | none => exact absurd hg hgy
+    | some v => exact mem_scrapingSetOf hy hg
+  · right
+    rcases r.allHeld h ha with h1 | h1
+    · exact absurd h1 hh
+    · exact unplaceable_global env w h hh h1
+
+/-- a fault-free cycle of the regime leaves the estimates alone -/
+theorem regime_step_explore (swr : Swr) (env : Env) (w : World) (sc : Sched) (r : RegimeN env w) :
+    (step swr env w (.cycle sc [] false)).explore = w.explore := by
+  have hmm : env.opt.minShard ≤ env.opt.maxShard := by have := r.minOk; have := r.max; omega
+  show (cycleStep swr env w sc [] false).1.explore = w.explore
+  unfold cycleStep
+  simp only [Bool.false_eq_true, if_false]
+  rw [resizes_explore]; rfl
+
+theorem unplaceable_of_explore {env : Env} {w w' : World} {h : Hash} (e : w'.explore = w.explore)
+    (hu : Unplaceable env w h) : Unplaceable env w' h := by
+  unfold Unplaceable at hu ⊢; rw [e]; exact hu
 
 /-- what a fault-free cycle of the regime does to the world: same size, and every running sidecar
     afterwards reports a subset of what it reported, each target in the same state or back to normal -/
-theorem regime_step_shape (swr : Swr) (env : Env) (w : World) (sc : Sched) (r : Regime env w) :
+theorem regime_step_full (swr : Swr) (env : Env) (w : World) (sc : Sched) (r : RegimeN env w) :
     (step swr env w (.cycle sc [] false)).replicas = w.replicas ∧
     (step swr env w (.cycle sc [] false)).active = w.active ∧
     ∀ (i : Nat) (sh : Shard), w.running[i]? = some sh →
       ∃ sh', (step swr env w (.cycle sc [] false)).shards[i]? = some sh' ∧
         ∀ h v', (statusOf sh').get h = some v' → ∃ v, (statusOf sh).get h = some v ∧
-          (v'.state = v.state ∨ v'.state = .normal) := by
+          (v'.state = v.state ∨ v'.state = .normal) ∧
+          entry (gc env.opt w.active (infos0 (inputOf env w [] false))) i h ≠ none := by
   have hc := regime_calm swr env w r
   obtain ⟨hnc, hscales, hfinal, hne⟩ := calm_cycle swr sc (inputOf env w [] false) hc
   have hrl := running_length w r.rep
@@ -88,17 +145,33 @@ theorem regime_step_shape (swr : Swr) (env : Env) (w : World) (sc : Sched) (r : 
     obtain ⟨v0, hv0, hrev⟩ := hsub h u hu
     obtain ⟨sh0, hrun0, rfl⟩ := infos0_running env w i s0 h0
     rw [hrun] at hrun0; cases hrun0
-    refine ⟨v0, hv0, ?_⟩
+    refine ⟨v0, hv0, ?_, by rw [entry_of hfin, hu]; simp⟩
     rw [hrs]
     rcases hrev.state with e | e
     · exact Or.inl e
     · exact Or.inr e
   · cases hu
 
+theorem regime_step_shape (swr : Swr) (env : Env) (w : World) (sc : Sched) (r : RegimeN env w) :
+    (step swr env w (.cycle sc [] false)).replicas = w.replicas ∧
+    (step swr env w (.cycle sc [] false)).active = w.active ∧
+    ∀ (i : Nat) (sh : Shard), w.running[i]? = some sh →
+      ∃ sh', (step swr env w (.cycle sc [] false)).shards[i]? = some sh' ∧
+        ∀ h v', (statusOf sh').get h = some v' → ∃ v, (statusOf sh).get h = some v ∧
+          (v'.state = v.state ∨ v'.state = .normal) := by
+  obtain ⟨e1, e2, e3⟩ := regime_step_full swr env w sc r
+  refine ⟨e1, e2, ?_⟩
+  intro i sh hrun
+  obtain ⟨sh', h1, h2⟩ := e3 i sh hrun
+  refine ⟨sh', h1, ?_⟩
+  intro h v' hv'
+  obtain ⟨v, a, b, _⟩ := h2 h v' hv'
+  exact ⟨v, a, b⟩
+
 /-- **the regime is kept by a fault-free cycle** -/
 theorem regime_cycle (swr : Swr) (env : Env) (w : World) (sc : Sched) (r : Regime env w) :
     Regime env (step swr env w (.cycle sc [] false)) := by
-  obtain ⟨e1, e2, e3⟩ := regime_step_shape swr env w sc r
+  obtain ⟨e1, e2, e3⟩ := regime_step_shape swr env w sc r.toN
   have hmm : env.opt.minShard ≤ env.opt.maxShard := by have := r.minOk; have := r.max; omega
   have hwinv : WInv env (step swr env w (.cycle sc [] false)) := (cycleStep_winv swr env w sc [] false hmm r.toWInv).1
   have hrl := running_length w r.rep
@@ -148,12 +221,14 @@ theorem regime_cycle (swr : Swr) (env : Env) (w : World) (sc : Sched) (r : Regim
     exact r.activeOnly sh (List.mem_of_getElem? hri) h v hg
   · intro h ha
     rw [e2] at ha
-    exact held_step swr env w sc h r.toWInv ha (r.allHeld h ha)
+    rcases r.allHeld h ha with h1 | h1
+    · exact Or.inl (held_step swr env w sc h r.toWInv ha h1)
+    · exact Or.inr (unplaceable_of_explore (regime_step_explore swr env w sc r.toN) h1)
 
 /-- **the regime is kept by scrapes** -/
 theorem regime_scrapes (swr : Swr) (env : Env) (w : World) (ops : List Op) (hall : ∀ op ∈ ops, isScrape op = true)
     (r : Regime env w) : Regime env (run swr env w ops) := by
-  obtain ⟨e1, e2, _, _, e5⟩ := run_scrapes swr env ops w hall
+  obtain ⟨e1, e2, e3x, _, e5⟩ := run_scrapes swr env ops w hall
   have hmm : env.opt.minShard ≤ env.opt.maxShard := by have := r.minOk; have := r.max; omega
   have hwinv : WInv env (run swr env w ops) := by
     apply run_winv swr env hmm ops w _ r.toWInv
@@ -207,11 +282,13 @@ theorem regime_scrapes (swr : Swr) (env : Env) (w : World) (ops : List Op) (hall
     exact r.activeOnly sh (List.mem_of_getElem? hri) h v hg
   · intro h ha
     rw [e2] at ha
-    obtain ⟨i, sh, hrun, hhas⟩ := r.allHeld h ha
-    obtain ⟨sh', hsh', hrel⟩ := e5 i sh hrun
-    obtain ⟨v, hv⟩ := (AL.has_iff _ _).mp hhas
-    obtain ⟨v', hv', _, _⟩ := (hrel h).2 v hv
-    exact ⟨i, sh', hsh', (AL.has_iff _ _).mpr ⟨v', hv'⟩⟩
+    rcases r.allHeld h ha with ⟨i, sh, hrun, hhas⟩ | h1
+    · left
+      obtain ⟨sh', hsh', hrel⟩ := e5 i sh hrun
+      obtain ⟨v, hv⟩ := (AL.has_iff _ _).mp hhas
+      obtain ⟨v', hv', _, _⟩ := (hrel h).2 v hv
+      exact ⟨i, sh', hsh', (AL.has_iff _ _).mpr ⟨v', hv'⟩⟩
+    · exact Or.inr (unplaceable_of_explore e3x h1)
 
 /-- scrapes and fault-free cycles, in any order -/
 def quietOp : Op → Bool
@@ -257,12 +334,17 @@ theorem regime_settled (swr : Swr) (env : Env) (w : World) (r : Regime env w)
     · exact Or.inl ⟨rfl, rfl, tj⟩
     · exact absurd ⟨hsi, hsj⟩ hp
   · intro h ha
-    left
-    obtain ⟨i, sh, hrun, hhas⟩ := r.allHeld h ha
-    obtain ⟨v, hv⟩ := (AL.has_iff _ _).mp hhas
-    have h0 : (infos0 (inputOf env w [] false))[i]? = some ⟨true, rtOf env sh, statusOf sh⟩ := by
-      rw [infos0_inputOf, List.getElem?_map, hrun]; rfl
-    exact mem_scrapingSetOf h0 hv
+    by_cases hh : Held w h
+    · left
+      obtain ⟨i, sh, hrun, hhas⟩ := hh
+      obtain ⟨v, hv⟩ := (AL.has_iff _ _).mp hhas
+      have h0 : (infos0 (inputOf env w [] false))[i]? = some ⟨true, rtOf env sh, statusOf sh⟩ := by
+        rw [infos0_inputOf, List.getElem?_map, hrun]; rfl
+      exact mem_scrapingSetOf h0 hv
+    · right
+      rcases r.allHeld h ha with h1 | h1
+      · exact absurd h1 hh
+      · exact unplaceable_global env w h hh h1
 
 /-- **convergence over many cycles, without overload.**  In the regime, after any history of scrapes
     and fault-free cycles — in any order, of any length — at the end of which every copy has been
@@ -280,7 +362,8 @@ theorem regime_converges (swr : Swr) (env : Env) (w : World) (ops : List Op) (sc
       (run swr env w (ops ++ [.cycle sc [] false])).shards[i]? = some shi →
       (run swr env w (ops ++ [.cycle sc [] false])).shards[j]? = some shj →
       (statusOf shi).has h = true → (statusOf shj).has h = true → False) ∧
-    (∀ h ∈ w.active, Held (run swr env w (ops ++ [.cycle sc [] false])) h) := by
+    (∀ h ∈ w.active, Held (run swr env w (ops ++ [.cycle sc [] false])) h ∨
+      Unplaceable env (run swr env w (ops ++ [.cycle sc [] false])) h) := by
   have r' := regime_run swr env ops w hall r
   have hset := regime_settled swr env _ r' hold
   have hrun : run swr env w (ops ++ [.cycle sc [] false]) = step swr env (run swr env w ops) (.cycle sc [] false) := by
@@ -303,7 +386,7 @@ theorem regime_converges (swr : Swr) (env : Env) (w : World) (ops : List Op) (sc
         | cycle sc' F b =>
           simp only [quietOp, Bool.and_eq_true, List.isEmpty_iff, Bool.not_eq_true'] at hop
           obtain ⟨rfl, rfl⟩ := hop
-          obtain ⟨a1, a2, _⟩ := regime_step_shape swr env w sc' r
+          obtain ⟨a1, a2, _⟩ := regime_step_shape swr env w sc' r.toN
           exact ⟨a1, a2⟩
         | restart _ => cases hop
         | update _ _ => cases hop
@@ -318,9 +401,12 @@ theorem regime_converges (swr : Swr) (env : Env) (w : World) (ops : List Op) (sc
   refine ⟨c1, c2, c3, ?_⟩
   intro h ha
   have r'' := regime_cycle swr env _ sc r'
-  apply r''.allHeld h
+  rw [← hrun]
+  have hfin : Regime env (run swr env w (ops ++ [.cycle sc [] false])) := by rw [hrun]; exact r''
+  apply hfin.allHeld h
+  rw [hrun]
   have : (step swr env (run swr env w ops) (.cycle sc [] false)).active = (run swr env w ops).active :=
-    (regime_step_shape swr env _ sc r').2.1
+    (regime_step_shape swr env _ sc r'.toN).2.1
   rw [this, p2]; exact ha
 
 end Kvass.Loop
@@ -329,7 +415,7 @@ namespace Kvass.Loop
 open Kvass Kvass.Coord Kvass.Spec
 
 /-- in the regime a cycle never restarts a scrape counter: nothing goes from normal to in-transfer -/
-theorem regime_step_times (swr : Swr) (env : Env) (w : World) (sc : Sched) (r : Regime env w)
+theorem regime_step_times (swr : Swr) (env : Env) (w : World) (sc : Sched) (r : RegimeN env w)
     (i : Nat) (sh sh' : Shard) (hrun : w.running[i]? = some sh)
     (hsh' : (step swr env w (.cycle sc [] false)).shards[i]? = some sh') :
     ∀ h v', (statusOf sh').get h = some v' → ∃ v, (statusOf sh).get h = some v ∧ v'.times = v.times := by
@@ -463,11 +549,11 @@ theorem regime_run_times (swr : Swr) (env : Env) :
     | cycle sc F b =>
       simp only [quietOp, Bool.and_eq_true, List.isEmpty_iff, Bool.not_eq_true'] at hop
       obtain ⟨rfl, rfl⟩ := hop
-      obtain ⟨a1, _, _⟩ := regime_step_shape swr env w sc r
+      obtain ⟨a1, _, _⟩ := regime_step_shape swr env w sc r.toN
       obtain ⟨hil, hsi⟩ := running_inv hrun1
       rw [a1] at hil
       have hrunw : w.running[i]? = some w.running[i] := by simp [hrl, hil]
-      obtain ⟨v0, hv0, t⟩ := regime_step_times swr env w sc r i _ sh1 hrunw hsi h v1 hv1
+      obtain ⟨v0, hv0, t⟩ := regime_step_times swr env w sc r.toN i _ sh1 hrunw hsi h v1 hv1
       refine ⟨_, v0, hrunw, hv0, ?_⟩
       rw [ht1, t, scrapeCount_cons]; simp
     | restart _ => cases hop
@@ -489,7 +575,8 @@ theorem regime_converges_counting (swr : Swr) (env : Env) (w : World) (ops : Lis
       (run swr env w (ops ++ [.cycle sc [] false])).shards[i]? = some shi →
       (run swr env w (ops ++ [.cycle sc [] false])).shards[j]? = some shj →
       (statusOf shi).has h = true → (statusOf shj).has h = true → False) ∧
-    (∀ h ∈ w.active, Held (run swr env w (ops ++ [.cycle sc [] false])) h) := by
+    (∀ h ∈ w.active, Held (run swr env w (ops ++ [.cycle sc [] false])) h ∨
+      Unplaceable env (run swr env w (ops ++ [.cycle sc [] false])) h) := by
   apply regime_converges swr env w ops sc r hall
   intro sh' hm h v' hv'
   obtain ⟨i, hi⟩ := List.getElem?_of_mem hm
@@ -602,14 +689,21 @@ theorem regime_restart (swr : Swr) (env : Env) (w : World) (j : Nat) (r : Regime
     exact r.activeOnly sh (List.mem_of_getElem? hri) h v hg
   · intro h ha
     rw [hrep.2] at ha
-    obtain ⟨i, sh, hrun, hhas⟩ := r.allHeld h ha
-    obtain ⟨v, hv⟩ := (AL.has_iff _ _).mp hhas
-    refine ⟨i, _, fwd i sh hrun, ?_⟩
-    by_cases hji : j = i
-    · simp only [hji, if_true]
-      obtain ⟨v', hv', _⟩ := ((restart_rel sh (ws_running r.toWS _ (List.mem_of_getElem? hrun))) h).2 v hv
-      exact (AL.has_iff _ _).mpr ⟨v', hv'⟩
-    · simp only [hji, if_false]; exact hhas
+    rcases r.allHeld h ha with ⟨i, sh, hrun, hhas⟩ | h1
+    · left
+      obtain ⟨v, hv⟩ := (AL.has_iff _ _).mp hhas
+      refine ⟨i, _, fwd i sh hrun, ?_⟩
+      by_cases hji : j = i
+      · simp only [hji, if_true]
+        obtain ⟨v', hv', _⟩ := ((restart_rel sh (ws_running r.toWS _ (List.mem_of_getElem? hrun))) h).2 v hv
+        exact (AL.has_iff _ _).mpr ⟨v', hv'⟩
+      · simp only [hji, if_false]; exact hhas
+    · right
+      have hexp : (step swr env w (.restart j)).explore = w.explore := by
+        rw [hstep]; unfold onShard; split
+        · cases w.shards[j]? <;> rfl
+        · rfl
+      exact unplaceable_of_explore hexp h1
 
 /-- scrapes, fault-free cycles and sidecar restarts -/
 def quietOpR : Op → Bool
